@@ -74,8 +74,8 @@ def body(kinds, tasks, refs, fbs, naming='plain'):
         for i in range(n):
             # 'prefix' naming: every name is a string prefix of the next one (a, ab, abc / t, tt, ttt)
             # 'same' naming: every task package calls its algorithm `a` (state vectors and values are named alike anyway)
-            tn = 't' * (tasks[i] + 1) if naming == 'prefix' else f't{tasks[i]}'
-            an = {'plain': f'a{i}', 'prefix': 'abcd'[: i + 1], 'same': 'a'}[naming]
+            tn = 't' * (tasks[i] + 1) if naming in ('prefix', 'rprefix') else f't{tasks[i]}'
+            an = {'plain': f'a{i}', 'prefix': 'abcd'[: i + 1], 'rprefix': 'abcd'[: n - i], 'same': 'a'}[naming]
             spec.append({'task': tn, 'name': an, 'kind': KIND[kinds[i]], 'svs': SVS, 'refs': [], 'fb': []})
         for (i, j), x in zip(pairs, lv):
             if LEVELS[x] is not None:
@@ -156,7 +156,7 @@ INFO = {
     'functions': ['pl.dag.Construct.__init__/_build_tree/_sub_task/_sub_analysis/_sub_regression/_feedback/_parents/_ancestry/_trim_trees', 'pl.dag.Node.trim/add/iter/graph',
                   'util.refs.as_vref/algref2svref/svref2vref/vref_as_name', 'util.names.task_name'],
     'bounds': {
-        'quick': 'also engines whose task and algorithm names are string prefixes of one another (a, ab, abc in one or several tasks) and engines whose task packages all name their algorithm alike; 3 algorithms: all 7^3 reference-granularity matrices x 4 feedback patterns for 7 kind/layout combinations; 4 algorithms: chain/diamond skeletons with all granularities on 3 edges',
+        'quick': 'also engines whose task and algorithm names are string prefixes of one another (a, ab, abc in one or several tasks, producers before consumers and the reverse) and engines whose task packages all name their algorithm alike; 3 algorithms: all 7^3 reference-granularity matrices x 4 feedback patterns for 7 kind/layout combinations; 4 algorithms: chain/diamond skeletons with all granularities on 3 edges',
         'thorough': '3 algorithms: all 27 kind combinations x 2 layouts; 4 algorithms: all 7^4 matrices over 4 chosen edges + 6-edge matrices restricted to 3 granularities',
     },
     'assumptions': ['algorithm engine = in-memory classes through the real dawgie.base.Factories (SynthAE)', 'SVG rendering (pydot write_svg) skipped; Node.graph level computation is real'],
@@ -181,6 +181,12 @@ def obligations(tier):
             out.append(ob.make(f'n3-prefixnames-k{"".join(map(str, kinds))}-t{"".join(map(str, tasks))}-r{r0}', 'n3', 'vp.harness.c09:body',
                                'r1: int, r2: int, f0: int', [f'0 <= r1 < {nl} and 0 <= r2 < {nl} and 0 <= f0 < 2'],
                                f"{{'kinds': {kinds!r}, 'tasks': {tasks!r}, 'refs': [{r0}, r1, r2], 'fbs': [f0, 0, 0], 'naming': 'prefix'}}", timeout=900 if tier == 'quick' else 3000))
+    # the other way round: a consumer whose name is a prefix of its producers' names (abc -> ab -> a)
+    for kinds, tasks in (((0, 0, 0), (0, 0, 0)), ((0, 0, 1), (0, 0, 1))):
+        for r0 in range(nl):
+            out.append(ob.make(f'n3-rprefixnames-k{"".join(map(str, kinds))}-t{"".join(map(str, tasks))}-r{r0}', 'n3', 'vp.harness.c09:body',
+                               'r1: int, r2: int, f0: int', [f'0 <= r1 < {nl} and 0 <= r2 < {nl} and 0 <= f0 < 2'],
+                               f"{{'kinds': {kinds!r}, 'tasks': {tasks!r}, 'refs': [{r0}, r1, r2], 'fbs': [f0, 0, 0], 'naming': 'rprefix'}}", timeout=900 if tier == 'quick' else 3000))
     # the same algorithm / state-vector / value names in different task packages
     for kinds in ((0, 0, 0), (0, 0, 1)):
         for r0 in range(nl):
